@@ -137,6 +137,22 @@ def generate(g, tier):
         elif shape == 'while-counter': main, out = f'VAR n 0\nWHILE c,n < {n}\n    {kw} bump\n    $STRING c\n$STRING n', sum([per + [f'STRING {i}'] for i in range(n)], []) + [f'STRING {n}']
         else: main, out = f'VAR n 0\nREPEAT {n}\n    {kw} bump\n    $STRING n', sum([per + [f'STRING {i + 1}'] for i in range(n)], [])
         cases.append(dict(op='compile_file', file='proj/main.txt', files={'proj/main.txt': main, 'proj/bump.txt': bump}, meta=dict(family='import-changes-loop-state', expout=out)))
+    # loops written in an IMPORTED file behave like loops anywhere: counters and what the body created are gone after the loop — in the
+    # file itself (NOTEXIST right after the loop) and in the importer afterwards
+    for _ in range(count(tier, 30, 200)):
+        kw = r.choice(['START', 'STARTENV', 'STARTCODE'])
+        n = r.randint(1, 3)
+        lib = (f'REPEAT i,{n}\n    $STRING "r"+i\n    VAR made i\nNOTEXIST i\nNOTEXIST made\n'
+               f'WHILE c,c<{n}\n    VAR k c\n    $STRING "w"+c\nNOTEXIST c\nNOTEXIST k\n'
+               f'FUNC f p\n    REPEAT j,1\n        $STRING "f"+p\nRUN f 7\nNOTEXIST j\nNOTEXIST p\nSTRING lib-end')
+        main = f'VAR outer 1\n{kw} lib\nNOTEXIST i\nNOTEXIST c\nNOTEXIST k\nNOTEXIST made\nNOTEXIST j\nEXIST outer\nSTRING end'
+        libout = [f'STRING r{x}' for x in range(n)] + [f'STRING w{x}' for x in range(n)] + ['STRING f7', 'STRING lib-end']
+        out = ([] if kw == 'STARTENV' else libout) + ['STRING end']
+        wrap = r.choice(['top', 'if', 'loop'])
+        if wrap == 'if': main = main.replace(f'{kw} lib', f'IF TRUE\n    {kw} lib')
+        elif wrap == 'loop':
+            main = main.replace(f'{kw} lib', f'REPEAT 2\n    {kw} lib'); out = ([] if kw == 'STARTENV' else libout * 2) + ['STRING end']
+        cases.append(dict(op='compile_file', file='proj/main.txt', files={'proj/main.txt': main, 'proj/lib.txt': lib}, meta=dict(family='loops-in-imported-file', expout=out)))
     return cases
 
 
